@@ -45,7 +45,19 @@ RULE = (
     "origins; every entry is evaluated in the sequence A B B A: over samplers and their grids, masked datasets and "
     "their uniform / pixelization / non-uniform over-sampled grids and border sub-grid, apply_over_sampling, "
     "profile averages, simulated datasets, overlay mesh, rectangular mapper tables and matrix, inversion data "
-    "vector / curvature / regularization matrices), pixel_indices (scaled<->pixel conversions of translated points "
+    "vector / curvature / regularization matrices; per-pixel sub-size tables (int / float Array2D, ndarray, list) "
+    "and from_radial_bins / from_adapt schemes created on the first-built origin and reused for both; in "
+    "mask_grids the tables are created on the other world's mask), constructors (every construction / I/O route of "
+    "Mask2D, Array2D, Grid2D, VectorYX2D and Mesh2DRectangular that takes an origin: plain constructors incl. a "
+    "Mask2D passed as `mask`, all_false, circular / circular_annular / circular_anti_annular / elliptical / "
+    "elliptical_annular, from_pixel_coordinates, output_to_fits -> from_fits in a per-case temp dir (hdu, invert, "
+    "resized_mask_shape), hdu_for_output -> from_primary_hdu, no_mask (native / slim+shape_native / list), full / "
+    "ones / zeros, apply_mask, from_yx_1d / from_yx_2d, uniform, bounding_box (both buffer modes), from_mask, "
+    "from_fits; each result is observed for origin, extent, bools, pixel scales, its pixel-centre grid and an "
+    "over-sampled grid under the translation relation AND, in each world, against the closed form "
+    "o+((H-1)/2-i)*sy, o+(j-(W-1)/2)*sx at the origin passed to the route; routes without an origin argument - "
+    "Array2D.from_yx_and_values, Imaging.from_fits, and the mask of Grid2D.from_extent, whose origin the library's own "
+    "test pins to (0,0) - are a stated precondition and only labelled), pixel_indices (scaled<->pixel conversions of translated points "
     "given in pixel units), mappers (rectangular and Delaunay mappers from vp.scene on translated masks: mesh "
     "geometry, index/weight tables, mapping matrix; Delaunay bounded to M<=1e4 with pixel scales >=1 in the 1e4 "
     "class). Inputs of int()-based functions are constructed away from cell boundaries: points in pixel units keep "
@@ -57,7 +69,7 @@ RULE = (
     "1e-7+256*eps*(2M+100) of the hull boundary / of a nearest-vertex tie, and Delaunay cases whose triangulation is "
     "within 1e-6+64*eps*((2M+100)/spread)^2 of co-circular. The outer 1e-8 buffer of the rectangular mesh is never "
     "excluded. Non-trivial = both components of d non-zero and, where the configuration is built on a general mask "
-    "(mask_grids, Overlay, imaging, shared_config, mappers), the unmasked region is not centred in the frame; "
+    "(mask_grids, Overlay, imaging, shared_config, constructors, mappers), the unmasked region is not centred in the frame; "
     "distinct = SHA-1 of the canonical case."
 )
 ASSUMPTIONS = [
@@ -82,6 +94,10 @@ ASSUMPTIONS = [
     ">=8e-9 away from 1), so the path through the sub-sizes cannot depend on rounding",
     "sharing one configuration object between masks / datasets that differ only in origin is ordinary use (the "
     "objects are documented as settings and are passed around by the dataset and grid classes)",
+    "FITS headers written by the library carry the pixel scale but not the origin, so every FITS / HDU route is "
+    "exercised with the origin passed explicitly to the reader, as its signature requires; routes with no origin "
+    "argument (Array2D.from_yx_and_values, Imaging.from_fits, Grid2D.from_extent's mask, pinned to (0,0) by "
+    "test__from_extent) cannot carry an origin and are not held to the property",
     "Mask2D.circular's `centre` argument is not exercised: its docstring does not say whether it is absolute or "
     "relative to the origin",
     "SimulatorImaging is run with a fixed noise_seed, which makes its Poisson deviate a deterministic function "
@@ -603,6 +619,7 @@ def body_mask_grids(case, ctx):
     ob("array/padded_before_convolution_from", lambda wd: arr(wd).padded_before_convolution_from(kernel_shape=pad_kernel), f_array)
     ob("array/trimmed_after_convolution_from", lambda wd: arr(wd).trimmed_after_convolution_from(kernel_shape=kernel), f_array)
     ob("mask/trimmed_array_from", lambda wd: _trimmed_array(aa, wd, vals, pad_kernel), f_array)
+    ob("mask/unmasked_blurred_array_from", lambda wd: _trimmed_array(aa, wd, vals, pad_kernel, blur=True), f_array)
     # distances and radial projection about a centre that moves with the origin
     rc = case["radial_centre"]
     ob("grid/distances_to_coordinate_from", lambda wd: grid(wd).distances_to_coordinate_from(coordinate=wd.at(rc)).slim, f_close)
@@ -641,10 +658,13 @@ def _os_tables(osamp):
             ("sub_fraction", "close", np.asarray(osamp.sub_fraction, dtype=float))]
 
 
-def _trimmed_array(aa, wd, vals, kernel):
+def _trimmed_array(aa, wd, vals, kernel, blur=False):
     h, w = vals.shape
     padded = aa.Array2D.no_mask(values=np.pad(vals, ((kernel[0] // 2,) * 2, (kernel[1] // 2,) * 2)),
                                 pixel_scales=wd.ps, origin=wd.origin)
+    if blur:
+        psf = aa.Kernel2D.no_mask(values=1.0 + np.arange(kernel[0] * kernel[1], dtype=float).reshape(kernel), pixel_scales=wd.ps)
+        return padded.mask.unmasked_blurred_array_from(padded_array=padded, psf=psf, image_shape=(h, w))
     return padded.mask.trimmed_array_from(padded_array=padded, image_shape=(h, w))
 
 
@@ -1167,6 +1187,216 @@ def body_shared_config(case, ctx):
 
 
 # ---------------------------------------------------------------------------------------------
+# sub-check: constructors  (every construction / I/O route that takes or carries an origin)
+# ---------------------------------------------------------------------------------------------
+@st.composite
+def constructor_cases(draw):
+    case = draw(frames())
+    mask = draw(offcentre_masks(lo=1, hi=6))
+    h, w = len(mask), len(mask[0])
+    case["mask"] = mask
+    case["coords"] = [[draw(st.integers(0, h - 1)), draw(st.integers(0, w - 1))] for _ in range(draw(st.integers(1, 4)))]
+    case["buffer"] = draw(st.integers(0, 1))
+    case["invert"] = draw(st.booleans())
+    case["resized"] = [draw(st.integers(1, 9)), draw(st.integers(1, 9))]
+    case["radius_pix"] = draw(st.sampled_from([0.7, 1.2, 1.8, 2.6]))
+    case["axis_ratio"] = draw(st.sampled_from([0.4, 0.7, 1.0]))
+    case["angle"] = draw(st.sampled_from([0.0, 30.0, 90.0, 135.0]))
+    case["sub"] = draw(st.integers(1, 3))
+    return case
+
+
+def f_route_mask(m):
+    """what a mask produced by a construction route is observed for: origin, extent, bools, pixel scales, the
+    pixel-centre grid built on it and one over-sampled grid built on it."""
+    aa = _aa()
+    out = f_mask_grid(m)
+    if not np.asarray(m, dtype=bool).all():
+        out.append(("over_sampled_grid", "coord", _xy(aa.OverSamplerUniform(mask=m, sub_size=2).over_sampled_grid)))
+    return out
+
+
+def f_route_array(a):
+    return [("values", "close", np.asarray(a.native, dtype=float))] + [("mask." + n, k, v) for n, k, v in f_route_mask(a.mask)]
+
+
+def f_route_grid(g):
+    out = [("coordinates", "coord", _xy(g)), ("origin", "coord", np.asarray(g.origin, dtype=float))]
+    out += [("mask." + n, k, v) for n, k, v in f_route_mask(g.mask)]
+    if getattr(g, "over_sampling", None) is not None:
+        out.append(("grid.over_sampler.over_sampled_grid", "coord", _xy(g.over_sampler.over_sampled_grid)))
+    return out
+
+
+def f_route_vector(v):
+    return [("grid", "coord", _xy(v.grid)), ("values", "close", np.asarray(v.native, dtype=float))] + \
+           [("mask." + n, k, v_) for n, k, v_ in f_route_mask(v.mask)]
+
+
+def absolute_route(ctx, key, wd, obj, ps=None, origin=None):
+    """both worlds could be wrong together: the mask a route returns must sit at the origin it was given and its
+    pixel centres must be the closed form o + ((H-1)/2 - i) * sy, o + (j - (W-1)/2) * sx."""
+    aa = _aa()
+    m = obj if isinstance(obj, aa.Mask2D) else obj.mask
+    ps = wd.ps if ps is None else ps
+    origin = wd.o if origin is None else np.asarray(origin, dtype=float)
+    t = tol(wd.mag)
+    ctx.close(np.asarray(m.origin, dtype=float), origin, key, atol=t, what=key + " origin vs the origin passed to the route")
+    b = np.asarray(m, dtype=bool)
+    if not b.all():
+        ctx.close(_xy(aa.Grid2D.from_mask(mask=m)), origin + rel_centres(b, ps), key, atol=t,
+                  what=key + " pixel centres vs closed form at the origin passed to the route")
+
+
+def body_constructors(case, ctx):
+    import shutil
+    import tempfile
+    aa = _aa()
+    w0, w1, d = worlds(case)
+    m = np.asarray(case["mask"], dtype=bool)
+    h, w = m.shape
+    frame_labels(case, ctx, m)
+    vals = np.arange(1.0, h * w + 1.0).reshape(h, w)
+    osu = aa.OverSamplingUniform(sub_size=case["sub"])
+    tmp = tempfile.mkdtemp(prefix="vp_c12_")
+
+    def ob(key, fn, facets, **kw):
+        """translation relation between the worlds plus the absolute closed form in each world"""
+        holder = {}
+
+        def keep(wd):
+            holder[wd.which] = fn(wd)
+            return holder[wd.which]
+
+        if observe(ctx, key, keep, facets, w0, w1, d):
+            for wd in (w0, w1):
+                absolute_route(ctx, key, wd, holder[wd.which], **kw)
+
+    def centres(wd, full=True):
+        b = np.zeros((h, w), dtype=bool) if full else m
+        return wd.o + rel_centres(b, wd.ps)
+
+    try:
+        inv = case["invert"]
+        # ---- Mask2D
+        ob("route/Mask2D", lambda wd: aa.Mask2D(mask=m.copy(), pixel_scales=wd.ps, origin=wd.origin), f_route_mask)
+        ob("route/Mask2D-list-invert", lambda wd: aa.Mask2D(mask=(~m).tolist(), pixel_scales=wd.ps, origin=wd.origin, invert=True), f_route_mask)
+        other = {0: w1, 1: w0}
+        ob("route/Mask2D-from-Mask2D", lambda wd: aa.Mask2D(mask=other[wd.which].mask, pixel_scales=wd.ps, origin=wd.origin), f_route_mask)
+        ob("route/Mask2D.all_false", lambda wd: aa.Mask2D.all_false(shape_native=(h, w), pixel_scales=wd.ps, origin=wd.origin), f_route_mask)
+        ob("route/Mask2D.all_false-invert", lambda wd: aa.Mask2D.all_false(shape_native=(h, w), pixel_scales=wd.ps, origin=wd.origin, invert=True), f_route_mask)
+        s_ = min(w0.ps)
+        n = 7
+        r = case["radius_pix"] * s_
+        iso = (s_, s_)
+        ob("route/Mask2D.circular", lambda wd: aa.Mask2D.circular(
+            shape_native=(n, n + 1), radius=r, pixel_scales=wd.ps, origin=wd.origin, invert=inv), f_route_mask)
+        ob("route/Mask2D.circular_annular", lambda wd: aa.Mask2D.circular_annular(
+            shape_native=(n, n), inner_radius=0.45 * r, outer_radius=r + 0.3 * s_, pixel_scales=iso, origin=wd.origin, invert=inv),
+           f_route_mask, ps=iso)
+        ob("route/Mask2D.circular_anti_annular", lambda wd: aa.Mask2D.circular_anti_annular(
+            shape_native=(n + 2, n + 2), inner_radius=0.45 * r, outer_radius=r + 0.3 * s_, outer_radius_2=r + 1.3 * s_,
+            pixel_scales=iso, origin=wd.origin, invert=inv), f_route_mask, ps=iso)
+        ob("route/Mask2D.elliptical", lambda wd: aa.Mask2D.elliptical(
+            shape_native=(n, n), major_axis_radius=r + 0.3 * s_, axis_ratio=case["axis_ratio"], angle=case["angle"],
+            pixel_scales=iso, origin=wd.origin, invert=inv), f_route_mask, ps=iso)
+        ob("route/Mask2D.elliptical_annular", lambda wd: aa.Mask2D.elliptical_annular(
+            shape_native=(n, n), inner_major_axis_radius=0.4 * r, inner_axis_ratio=case["axis_ratio"], inner_phi=case["angle"],
+            outer_major_axis_radius=r + 0.8 * s_, outer_axis_ratio=case["axis_ratio"], outer_phi=case["angle"],
+            pixel_scales=iso, origin=wd.origin, invert=inv), f_route_mask, ps=iso)
+        ob("route/Mask2D.from_pixel_coordinates", lambda wd: aa.Mask2D.from_pixel_coordinates(
+            shape_native=(h + 2, w + 2), pixel_coordinates=[[c[0] + 1, c[1] + 1] for c in case["coords"]], pixel_scales=wd.ps,
+            origin=wd.origin, buffer=case["buffer"], invert=inv), f_route_mask)
+
+        def fits_path(wd, name):
+            return os.path.join(tmp, "%s_%d.fits" % (name, wd.which))
+
+        def mask_via_fits(wd, **kw):
+            wd.new_mask().output_to_fits(file_path=fits_path(wd, "mask"), overwrite=True)
+            return aa.Mask2D.from_fits(file_path=fits_path(wd, "mask"), pixel_scales=wd.ps, origin=wd.origin, **kw)
+
+        ob("route/Mask2D.from_fits", mask_via_fits, f_route_mask)
+        ob("route/Mask2D.from_fits-hdu-invert", lambda wd: mask_via_fits(wd, hdu=0, invert=True), f_route_mask)
+        ob("route/Mask2D.from_fits-resized", lambda wd: mask_via_fits(wd, resized_mask_shape=tuple(case["resized"])), f_route_mask)
+        ob("route/Mask2D.from_primary_hdu", lambda wd: aa.Mask2D.from_primary_hdu(
+            primary_hdu=wd.new_mask().hdu_for_output, origin=wd.origin), f_route_mask)
+        # ---- Array2D
+        ob("route/Array2D", lambda wd: aa.Array2D(values=vals.copy(), mask=wd.new_mask()), f_route_array)
+        ob("route/Array2D.no_mask-native", lambda wd: aa.Array2D.no_mask(values=vals.copy(), pixel_scales=wd.ps, origin=wd.origin), f_route_array)
+        ob("route/Array2D.no_mask-slim-shape_native", lambda wd: aa.Array2D.no_mask(
+            values=vals.ravel().copy(), shape_native=(h, w), pixel_scales=wd.ps, origin=wd.origin), f_route_array)
+        ob("route/Array2D.no_mask-list", lambda wd: aa.Array2D.no_mask(values=vals.tolist(), pixel_scales=wd.ps, origin=wd.origin), f_route_array)
+        ob("route/Array2D.full", lambda wd: aa.Array2D.full(fill_value=3.0, shape_native=(h, w), pixel_scales=wd.ps, origin=wd.origin), f_route_array)
+        ob("route/Array2D.ones", lambda wd: aa.Array2D.ones(shape_native=(h, w), pixel_scales=wd.ps, origin=wd.origin), f_route_array)
+        ob("route/Array2D.zeros", lambda wd: aa.Array2D.zeros(shape_native=(h, w), pixel_scales=wd.ps, origin=wd.origin), f_route_array)
+        ob("route/Array2D.apply_mask", lambda wd: aa.Array2D.no_mask(
+            values=vals.copy(), pixel_scales=wd.ps, origin=wd.origin).apply_mask(mask=wd.new_mask()), f_route_array)
+
+        def array_via_fits(wd):
+            aa.Array2D.no_mask(values=vals.copy(), pixel_scales=wd.ps, origin=wd.origin).output_to_fits(
+                file_path=fits_path(wd, "array"), overwrite=True)
+            return aa.Array2D.from_fits(file_path=fits_path(wd, "array"), pixel_scales=wd.ps, hdu=0, origin=wd.origin)
+
+        ob("route/Array2D.from_fits", array_via_fits, f_route_array)
+        ob("route/Array2D.from_primary_hdu", lambda wd: aa.Array2D.from_primary_hdu(
+            primary_hdu=aa.Array2D.no_mask(values=vals.copy(), pixel_scales=wd.ps, origin=wd.origin).hdu_for_output,
+            origin=wd.origin), f_route_array)
+        # ---- Grid2D (positions passed in are the closed-form pixel centres of the world)
+        ob("route/Grid2D", lambda wd: aa.Grid2D(values=centres(wd, full=False), mask=wd.new_mask(), over_sampling=osu), f_route_grid)
+        ob("route/Grid2D.from_mask", lambda wd: aa.Grid2D.from_mask(mask=wd.new_mask(), over_sampling=osu), f_route_grid)
+        ob("route/Grid2D.no_mask-native", lambda wd: aa.Grid2D.no_mask(
+            values=centres(wd).reshape(h, w, 2), pixel_scales=wd.ps, origin=wd.origin, over_sampling=osu), f_route_grid)
+        ob("route/Grid2D.no_mask-slim-shape_native", lambda wd: aa.Grid2D.no_mask(
+            values=centres(wd), shape_native=(h, w), pixel_scales=wd.ps, origin=wd.origin, over_sampling=osu), f_route_grid)
+        ob("route/Grid2D.from_yx_1d", lambda wd: aa.Grid2D.from_yx_1d(
+            y=centres(wd)[:, 0], x=centres(wd)[:, 1].tolist(), shape_native=(h, w), pixel_scales=wd.ps, origin=wd.origin,
+            over_sampling=osu), f_route_grid)
+        ob("route/Grid2D.from_yx_2d", lambda wd: aa.Grid2D.from_yx_2d(
+            y=centres(wd)[:, 0].reshape(h, w), x=centres(wd)[:, 1].reshape(h, w).tolist(), pixel_scales=wd.ps, origin=wd.origin,
+            over_sampling=osu), f_route_grid)
+        ob("route/Grid2D.uniform", lambda wd: aa.Grid2D.uniform(shape_native=(h, w), pixel_scales=wd.ps, origin=wd.origin, over_sampling=osu), f_route_grid)
+
+        def bbox_of(wd, pad):
+            return [wd.o[0] - (h - pad) * wd.ps[0] / 2.0, wd.o[0] + (h - pad) * wd.ps[0] / 2.0,
+                    wd.o[1] - (w - pad) * wd.ps[1] / 2.0, wd.o[1] + (w - pad) * wd.ps[1] / 2.0]
+
+        ob("route/Grid2D.bounding_box", lambda wd: aa.Grid2D.bounding_box(
+            bounding_box=bbox_of(wd, 0), shape_native=(h, w), over_sampling=osu), f_route_grid)
+        if h > 1 and w > 1:
+            ob("route/Grid2D.bounding_box-buffer_around_corners", lambda wd: aa.Grid2D.bounding_box(
+                bounding_box=bbox_of(wd, 1), shape_native=(h, w), buffer_around_corners=True, over_sampling=osu), f_route_grid)
+            # Grid2D.from_extent has no origin argument and the library's own test pins the origin of the returned
+            # grid's mask to (0, 0) whatever the extent: the route cannot carry an origin (precondition), so only the
+            # coordinates it returns are held to the translation relation, not the mask it is attached to
+            observe(ctx, "route/Grid2D.from_extent", lambda wd: aa.Grid2D.from_extent(
+                extent=(bbox_of(wd, 1)[2], bbox_of(wd, 1)[3], bbox_of(wd, 1)[0], bbox_of(wd, 1)[1]), shape_native=(h, w)),
+                f_coord_grid, w0, w1, d)
+
+        def grid_via_fits(wd):
+            aa.Array2D.no_mask(values=np.zeros((1, 1)), pixel_scales=1.0)   # (keeps the import side effects identical)
+            from autoarray.structures.arrays import array_2d_util
+            array_2d_util.numpy_array_2d_to_fits(array_2d=centres(wd).reshape(h, w, 2), file_path=fits_path(wd, "grid"), overwrite=True)
+            return aa.Grid2D.from_fits(file_path=fits_path(wd, "grid"), pixel_scales=wd.ps, origin=wd.origin, over_sampling=osu)
+
+        ob("route/Grid2D.from_fits", grid_via_fits, f_route_grid)
+        # ---- VectorYX2D
+        vec = np.stack([vals, -vals], axis=-1)
+        ob("route/VectorYX2D.no_mask", lambda wd: aa.VectorYX2D.no_mask(values=vec.copy(), pixel_scales=wd.ps, origin=wd.origin), f_route_vector)
+        ob("route/VectorYX2D.no_mask-slim", lambda wd: aa.VectorYX2D.no_mask(
+            values=vec.reshape(-1, 2).copy(), shape_native=(h, w), pixel_scales=wd.ps, origin=wd.origin), f_route_vector)
+        ob("route/VectorYX2D.full", lambda wd: aa.VectorYX2D.full(fill_value=(1.0, 2.0), shape_native=(h, w), pixel_scales=wd.ps, origin=wd.origin), f_route_vector)
+        ob("route/VectorYX2D.ones", lambda wd: aa.VectorYX2D.ones(shape_native=(h, w), pixel_scales=wd.ps, origin=wd.origin), f_route_vector)
+        ob("route/VectorYX2D.zeros", lambda wd: aa.VectorYX2D.zeros(shape_native=(h, w), pixel_scales=wd.ps, origin=wd.origin), f_route_vector)
+        # ---- rectangular mesh constructed directly
+        ob("route/Mesh2DRectangular", lambda wd: aa.Mesh2DRectangular(
+            values=centres(wd), shape_native=(h, w), pixel_scales=wd.ps, origin=wd.origin), f_route_grid)
+        # routes that have no origin argument cannot carry one: a stated precondition, not exercised
+        ctx.label("precondition:no-origin-argument:Array2D.from_yx_and_values,Imaging.from_fits,Grid2D.from_extent(mask)")
+    finally:
+        shutil.rmtree(tmp, ignore_errors=True)
+
+
+# ---------------------------------------------------------------------------------------------
 # sub-check: pixel_indices
 # ---------------------------------------------------------------------------------------------
 @st.composite
@@ -1455,6 +1685,8 @@ SUBCHECKS = [
              shards={"quick": 2, "thorough": 8}),
     SubCheck("shared_config", body_shared_config, strategy=shared_cases(), examples={"quick": 105, "thorough": 2500},
              shards={"quick": 3, "thorough": 16}),
+    SubCheck("constructors", body_constructors, strategy=constructor_cases(), examples={"quick": 90, "thorough": 2000},
+             shards={"quick": 2, "thorough": 12}),
     SubCheck("pixel_indices", body_pixel_indices, strategy=pixel_index_cases(), examples={"quick": 300, "thorough": 8000},
              shards={"quick": 1, "thorough": 8}),
     SubCheck("mappers", body_mappers, strategy=mapper_cases(), examples={"quick": 300, "thorough": 6000},
